@@ -8,6 +8,7 @@ import time
 
 import vlib
 from vlib import log, kv
+from uci import Engine
 
 
 class Issue:
@@ -681,7 +682,8 @@ class C14(Check):
     assumptions = ["f32 rounding inside Duration::mul_f32 is bounded by relative 2^-23 per operation (model is exact; "
                    "comparison allows 1e-6 relative + 100 ns)",
                    "second sentence of C14 (returns before the flag falls) is wall-clock behaviour: sampled on the real "
-                   "binary in the thorough tier, not proved"]
+                   "release binary through the UCI go handler (clocks of 400-1000 ms, both clocks / own clock only / with "
+                   "increment / with movestogo; a late answer is retried once), not proved"]
 
     def streams(self):
         req = os.path.join(self.wd, "limits.req")
@@ -733,6 +735,90 @@ class C14(Check):
             if si != mt or hi != mt:
                 oracle = f"fixed move time {mt} ns not used as given ({si}/{hi}): {req!r}"
         return corr, oracle, feats, key
+
+    # -- the UCI glue and the wall-clock sentence: `go` with clocks on the real binary ------------------
+    WALL_POSITIONS = ["position startpos", "position startpos moves e2e4",
+                      "position fen r3k2r/p1ppqpb1/bn2pnp1/3PN3/1p2P3/2N2Q1p/PPPBBPPP/R3K2R w KQkq - 0 1",
+                      "position fen 8/2p5/3p4/KP5r/1R3p1k/8/4P1P1/8 b - - 0 1"]
+
+    def wall_cases(self):
+        import random
+        rnd = random.Random(self.seed * 7919 + 14)
+        cases = []
+        for pos in self.WALL_POSITIONS:
+            white = (" b " not in pos) and not pos.endswith("e2e4")
+            mine, theirs = ("wtime", "btime") if white else ("btime", "wtime")
+            inc = "winc" if white else "binc"
+            for shape in ("both", "own-only", "own+inc", "own+mtg"):
+                ms = rnd.choice([400, 500, 700, 1000])
+                if shape == "both":
+                    go = f"go {mine} {ms} {theirs} {rnd.choice([1, 60000])}"
+                elif shape == "own-only":
+                    go = f"go {mine} {ms}"
+                elif shape == "own+inc":
+                    go = f"go {mine} {ms} {inc} {rnd.choice([0, 50, 1000])}"
+                else:
+                    go = f"go {mine} {ms} movestogo {rnd.choice([1, 2, 40])}"
+                cases.append((pos, go, ms, shape))
+        if self.tier == "quick":
+            rnd.shuffle(cases)
+            cases = cases[:8]
+        else:
+            cases = cases * 3
+        return cases
+
+    def extra_phase(self, harness_bin):
+        """second sentence of C14, through the real `go` handler: with at least 200 ms on the clock of the side to
+        move (and whatever else a GUI sends with it), bestmove arrives before that clock would have run out.
+        A late answer is retried once before it is reported, so that one scheduling hiccup of a loaded machine is
+        not reported as a violation; an engine that does not use the clock at all misses both times."""
+        issues = []
+        try:
+            binary = vlib.build_engine("release")
+        except vlib.BuildError as e:
+            issues.append(Issue("corr", "engine build", "", "", "", str(e)[:500], "uci-clock"))
+            return issues
+        for (pos, go, ms, shape) in self.wall_cases():
+            late = 0
+            took = None
+            for attempt in range(2):
+                eng = Engine(binary)
+                try:
+                    eng.send("uci"); eng.read_until(lambda l: l == "uciok", 10)
+                    eng.send("isready"); eng.read_until(lambda l: l == "readyok", 10)
+                    eng.send(pos)
+                    eng.send("isready"); eng.read_until(lambda l: l == "readyok", 10)
+                    t0 = time.time()
+                    eng.send(go)
+                    line, _ = eng.read_until(lambda l: l.startswith("bestmove"), ms / 1000.0 + 3.0)
+                    took = (time.time() - t0) * 1000.0
+                    if line is None or took >= ms:
+                        late += 1
+                    else:
+                        break
+                finally:
+                    eng.send("stop"); eng.send("quit")
+                    if not eng.wait_exit(2):
+                        eng.kill()
+            self.evaluations += 1
+            self.features["uci-clock:" + shape] = self.features.get("uci-clock:" + shape, 0) + 1
+            self.distinct.add(pos + " | " + go)
+            if late == 2:
+                req = f"uci\t{pos}\t{go}"
+                detail = (f"no bestmove within the {ms} ms on the mover's clock after '{go}' in '{pos}' "
+                          f"(twice; last answer after {took:.0f} ms or never)")
+                issues.append(Issue("oracle", req, f"late {took:.0f}ms" if took else "none", "-", f"< {ms} ms", detail, "uci-clock"))
+        return issues
+
+    def run_replay(self, path, harness_bin):
+        with open(path) as f:
+            rp = json.load(f)
+        if rp.get("stream") == "uci-clock":
+            _, pos, go = rp["request"].split("\t")
+            ms = int(re.search(r"time (\d+)", go).group(1))
+            self.wall_cases = lambda: [(pos, go, ms, "replay")]
+            return self.extra_phase(harness_bin)
+        return super().run_replay(path, harness_bin)
 
 
 # =============================================================================================
